@@ -259,7 +259,7 @@ func encodeGuard(f func() ([]byte, error)) (b []byte, err error, panicked bool) 
 }
 
 func genJSON(c *hx.Ctx) {
-	r := c.Rng
+	r := decorrelate(c)
 	g := cval.NewGen(r, jsonProfile(c))
 	for i := 0; i < c.N; i++ {
 		v := g.Top()
@@ -324,4 +324,14 @@ func execJSON(op []string) (res string) {
 		return "ok"
 	}
 	return "bad-op"
+}
+
+// decorrelate derives the stream's generator from the seed through a non-linear mix: hx.NewRng is
+// affine in the seed, so the streams of consecutive seeds are the same sequence shifted by one draw.
+func decorrelate(c *hx.Ctx) *hx.Rng {
+	z := (c.Seed + 1) * 0xBF58476D1CE4E5B9
+	z ^= z >> 27
+	z *= 0x94D049BB133111EB
+	z ^= z >> 31
+	return hx.NewRng(z)
 }
